@@ -305,6 +305,28 @@ theorem comp_order (xs : List α) (hn : xs.length < 2 ^ 63) :
   have := comp_from xs.length hn xs [] (by simp)
   simpa [compInit, newAllBorrowed, ofList] using this
 
+/-- **C19 (array comprehension, whole loop)**: the comprehension loop as the compiler lowers it —
+    `new_all_borrowed n` and counter `0` fed into a `TailLoop` over the iterator, `__next__` per
+    round, `nothing` ⇒ break with the carried array, `some (x, it')` ⇒ `return` of `g x` at index
+    `count`, `count + 1`, continue with `it'` (`emitCompLoop`, compared with the loop extracted from
+    the real Hugr) — run over an array `xs` evaluates to the array `[g x | x ∈ xs]` in index order,
+    for every length; every fuel ≥ n + 1 gives the same result. -/
+theorem comp_order_loop (g : α → α) (xs : List α) (hn : xs.length < 2 ^ 63) (extra : Nat) :
+    runComp (emitCompLoop xs.length) g (xs.length + 1 + extra) (ofList xs)
+      = .ok (some (vArr (ofList (xs.map g)))) := by
+  have := runLoop_from g xs hn xs.length 0 extra (by omega)
+  simp only [iterCells, ↓reduceIte, List.replicate_zero, List.nil_append, List.drop_zero,
+    List.take_zero, List.map_nil, Nat.sub_zero, Int.natCast_zero] at this
+  simp only [runComp, CompLoop.init, emitCompLoop, and_self, ↓reduceIte, bind, Except.bind, pure,
+    Except.pure, newAllBorrowed]
+  have h0 : ofList ([] : List α) ++ List.replicate xs.length (none : Option α)
+      = List.replicate xs.length none := by simp [ofList]
+  rw [h0] at this
+  simp only [emitCompLoop] at this
+  rw [this]
+  simp
+
+
 /-- … and one element too many panics instead of overwriting anything. -/
 theorem comp_overflow_panics (xs : List α) (e : α) (hn : xs.length < 2 ^ 63) :
     compStep (ofList xs, (xs.length : Int)) e = .error .indexOob := by
@@ -336,6 +358,9 @@ theorem extracted_unpack_eq_emission :
     Gen.unpack2 = emitUnpackShape Gen.unpack2Shape ∧ Gen.unpack3 = emitUnpackShape Gen.unpack3Shape ∧
     Gen.unpack4 = emitUnpackShape Gen.unpack4Shape := by decide
 
+/-- the comprehension loop extracted from /repo's lowering in this run is the model's -/
+theorem extracted_comp_loop_eq_emission : Gen.compLoop = emitCompLoop Gen.compLoopLen := by decide
+
 /-! ## Non-vacuity: concrete instances -/
 
 example : getitem false (ofList [10, 20, 30]) 1 = .ok (20, ofList [10, 20, 30]) := by rfl
@@ -346,6 +371,8 @@ example : setitem false (ofList [10, 20, 30]) 2 7 = .ok (ofList [10, 20, 7]) := 
 example : IsI64 (-1) ∧ InRange 3 2 ∧ ¬ InRange 3 (-1) := by unfold IsI64 InRange; omega
 example : pyUnpack [1, 2, 3, 4, 5] 1 2 = ([1], [2, 3], [4, 5]) := by decide
 example : drain true 4 ⟨ofList [10, 20, 30], 0⟩ = .ok (some [10, 20, 30]) := by rfl
+example : runComp (emitCompLoop 2) (· + 1) 3 (ofList [10, 20]) = .ok (some (vArr (ofList [11, 21]))) := by
+  rfl
 example : [10, 20].foldlM compStep (compInit 2) = .ok (ofList [10, 20], 2) := by rfl
 example : pyRun ([1, 2, 3], []) [.write 0 9, .read 0, .read 2] = some ([9, 2, 3], [9, 3]) := by
   decide
